@@ -527,7 +527,7 @@ func runR5(c *Ctx) {
 		}
 	}
 	// (2) use site
-	fn := p.Func("", "QFrame.filter")
+	fn := p.anchorFrameFilter()
 	if fn == nil {
 		c.undecided("qframe.QFrame.filter|use site", "-", "QFrame.filter not found")
 		return
